@@ -29,6 +29,11 @@ for p in props:
         "level_note": m["level_note"],
         "technique": m["technique"],
     })
+import subprocess
+hooks = [l.split()[0] for l in subprocess.run(["git", "-C", "/repo", "log", "--reverse", "--format=%h %s", "da13067..main"],
+         capture_output=True, text=True).stdout.splitlines() if " verif hook" in l]
+if hooks:
+    base["hooks"]["source_commits"] = hooks
 base["checks"] = checks
 base["not_applicable"] = notapp
 json.dump(base, open(os.path.join(ROOT, "MANIFEST.json"), "w"), indent=1)
